@@ -21,6 +21,8 @@ def corrupt(lines):
 
 def run(ctx):
     th = ctx.thorough
+    # the oracle checks itself first: fast product = schoolbook product, ring laws, division and remainder identities
+    ctx.tlc("decimal-oracle", "mc/MC_Decimal.tla", "mc/MC_Decimal.cfg", dump=False, min_states=300, timeout=1800)
     run_family(ctx, "c04", 2300)
     tr = ctx.record("arith-random", "expr", ["-mode", "arith", "-n", 24000 if th else 700], timeout=1500)
     ctx.validate("arith-random-validate", "trace/Trace_Expr.tla", "trace/Trace_Expr.cfg", tr, "expr", shards=16 if th else 4, timeout=3400)
